@@ -102,7 +102,9 @@ class Lab:
                  "ConnectionClosedError": errors.ConnectionClosedError("closed: token-7731"),
                  "KeyError": KeyError("token-7731"), "ZeroDivisionError": ZeroDivisionError("token-7731"),
                  "PyroError": errors.PyroError("token-7731"), "TimeoutError": errors.TimeoutError("token-7731"),
-                 "EmptyPermissionError": PermissionError(), "EmptySecurityError": errors.SecurityError()}
+                 "EmptyPermissionError": PermissionError(), "EmptySecurityError": errors.SecurityError(),
+                 # the reason names a file whose name is not valid unicode: not every serializer can write that text as it is
+                 "OddTextError": OSError("no access to caf\udce9.key: token-7731")}
         return table[name]
 
     # ---- clients --------------------------------------------------------------------------------------------
